@@ -44,6 +44,25 @@ def generate(ctx):
         else:
             c["other"] = True
         cases.append(c)
+    # marked sets compared as sets, not by size (own generator, the stream above is unchanged): after a duplication A -> C D one side has
+    # several consumption rules for the pushed index and the other side none, one, or an end rule
+    import random
+    r2 = random.Random("c17-count-vs-set|%s" % rng.random())
+    for _ in range(24 if ctx.tier == "quick" else 400):
+        f, g = ("f", "g") if r2.random() < 0.5 else ("g", "f")
+        rules = [["prod", "S", "A", f], ["dup", "A", "C", "D"], ["cons", f, "C", "E"], ["cons", f, "C", "G"],
+                 ["end", "E", r2.choice(iglib.TERS)], ["end", "G", r2.choice(iglib.TERS)]]
+        k = r2.random()
+        if k < 0.4:
+            rules.append(["cons", g, "D", "E"])           # D cannot consume the pushed index: empty
+        elif k < 0.6:
+            rules.append(["cons", f, "D", "E"])           # non-empty
+        elif k < 0.8:
+            rules.append(["end", "D", r2.choice(iglib.TERS)])
+        if r2.random() < 0.3:
+            rules.append(["cons", f, "C", "D"])
+        r2.shuffle(rules)
+        cases.append({"rules": rules, "start": "S", "op": "is_empty", "perm_seed": r2.randrange(10**6)})
     return cases
 
 
